@@ -13,7 +13,7 @@ LEVEL = "exploration"
 DEADLINE = 120
 RULE = ("cases = own MapSpec AST generator (vlib.mapgen: 1..4 probe functions, rank<=3 arrays, axis sizes 1..3, "
         "zip/outer/partial ':'/full ':'/whole args, internal axes at any position, generator functions, tuple "
-        "outputs, functions without MapSpec, list vs ndarray inputs) from VERIF_SEED, plus a fixed list of "
+        "outputs, functions without MapSpec incl. array-returning ones whose MapSpec pipefunc autogenerates, list vs ndarray inputs) from VERIF_SEED, plus a fixed list of "
         "structural regression shapes; each run sequentially under file_array / dict / shared_memory_dict / "
         "per-output mixes; every third generated case additionally repeats the map with cleanup=False after a first run that was "
         "cut short by a fault in one invocation (a raise, or an unstorable last output of a tuple-output function); non-trivial = some MapSpec function with >=2 external elements, a ':' reduction or an "
@@ -145,7 +145,7 @@ def get_case(desc):
         return _single_cases()[desc["i"]]
     if desc["kind"] == "literal":
         return desc["case"]
-    return mapgen.case_from_seed(desc["seed"], desc["i"])
+    return mapgen.case_from_seed(desc["seed"], desc["i"], allow_autogen=desc["i"] % 2 == 1)
 
 
 def storage_arg(case, st, i):
@@ -303,7 +303,7 @@ def finalize(agg, tier, seed):
     if len(agg.keys) < need:
         floors.append(f"only {len(agg.keys)} distinct non-trivial cases (< {need})")
     for c in ["internal_before_external", "internal_after_external", "generator", "tuple_out", "fullcolon",
-              "partial_colon", "zip", "outer", "nomapspec", "root_list", "permuted_out_axes", "colon_on_tuple_output"]:
+              "partial_colon", "zip", "outer", "nomapspec", "root_list", "permuted_out_axes", "colon_on_tuple_output", "autogen_mapspec"]:
         if agg.classes.get(c, 0) < 10:
             floors.append(f"structural class {c} hit only {agg.classes.get(c, 0)} times (< 10)")
     if agg.counters.get("first_runs_cut_short:unpicklable", 0) < 20 or agg.counters.get("first_runs_cut_short:raise", 0) < 50:
